@@ -466,7 +466,9 @@ def c13(ck, F, tier):
     ck.rule("SHIFT-PAIR", "descriptor rebuild shifts by +count / -count under the right guards", floor=4)
     guarded(ck, rs.shift_pair, F)
     guarded(ck, rs.shift_pair_columns, F)
-
+    import rules_struct as rs_cut
+    ck.rule("CUT", "all comparisons of one insert/delete against the same boundary cut at the same point", floor=10)
+    guarded(ck, rs_cut.cut_agree, F)
 
 def c14(ck, F, tier):
     import rules_struct as rs
@@ -480,7 +482,9 @@ def c14(ck, F, tier):
     ck.rule("SHIFT-PAIR", "descriptor rebuild shifts by +count / -count under the right guards", floor=4)
     guarded(ck, rs.shift_pair, F)
     guarded(ck, rs.shift_pair_columns, F)
-
+    import rules_struct as rs_cut
+    ck.rule("CUT", "all comparisons of one insert/delete against the same boundary cut at the same point", floor=10)
+    guarded(ck, rs_cut.cut_agree, F)
 
 def c15(ck, F, tier):
     import rules_struct as rs
